@@ -21,7 +21,7 @@ MANIFEST = {
     'note': 'Speeds taken non-negative for the order proofs (is_sign_positive := true); the sign convention of min_speed is covered by C02-1.',
 }
 EXPLANATION = 'Per-site lower-bound obligations on insert_speed and pre-value provenance of the restore decision.'
-RULES = ['C13-1.sites', 'C13-2.restore', 'C13-3.merge', 'C13-4.empty', 'C13-5.search', 'C13-6.add_speeds', 'C13-7.seed', 'C13-8.canonical', 'C13-9.gate', 'C13-10.sorted']
+RULES = ['C13-1.sites', 'C13-2.restore', 'C13-3.merge', 'C13-4.empty', 'C13-5.search', 'C13-6.add_speeds', 'C13-7.seed', 'C13-8.canonical', 'C13-9.gate', 'C13-10.sorted', 'C13-11.base']
 ASSUMPTIONS = ['speeds are non-negative in the order proofs', 'idx_start / idx_end are the positions their search loops are meant to find (not decided)']
 
 
@@ -38,3 +38,5 @@ def run(ctx):
     from .common import RuleProxy
     px = RuleProxy(ctx, {'C02-4.applies': 'C13-9.gate', 'C02-7.select': 'C13-9.gate', 'C02-1.min_speed': 'C13-9.gate'})
     SP.applies(px); SP.select_set(px); SP.min_speed_spec(px)
+    from . import C06
+    C06.run(RuleProxy(ctx, {'C06-1.linkpoints': 'C13-11.base'}))
